@@ -175,6 +175,7 @@ type builder struct {
 	buf   bytes.Buffer
 	leafN int
 	bndN  int
+	bnds  []string // boundaries of the enclosing multiparts, outermost first
 	pad   int
 }
 
@@ -292,12 +293,14 @@ func (b *builder) entity(n *node, top, inner bool) *Ent {
 		if b.folded() {
 			b.buf.WriteString("This is a multi-part message in MIME format." + b.nl)
 		}
+		b.bnds = append(b.bnds, boundary)
 		for _, k := range n.kids {
 			b.buf.WriteString("--" + boundary + b.nl)
 			kid := b.entity(k, false, false)
 			e.Kids = append(e.Kids, kid)
 			b.buf.WriteString(b.nl) // belongs to the delimiter that follows
 		}
+		b.bnds = b.bnds[:len(b.bnds)-1]
 		b.buf.WriteString("--" + boundary + "--" + b.nl)
 		if b.folded() {
 			b.buf.WriteString("epilogue text" + b.nl)
@@ -335,6 +338,11 @@ func (b *builder) leafBody(kind byte, leaf, pad int) {
 			b.buf.WriteString("8-bit: \xc3\xa9\xc3\xa0 \xe9 \xff\x80" + b.nl)
 		}
 		b.buf.WriteString(" a line that starts with a space" + b.nl)
+		for _, bnd := range b.bnds {
+			// the delimiters of the enclosing multiparts quoted in the middle of a line: not delimiters (RFC 2046 5.1.1
+			// only forbids them at the start of a line), but the boundary scanner has to reject them
+			b.buf.WriteString("quoted mid-line: x--" + bnd + " and x--" + bnd + "--" + b.nl)
+		}
 		if pad > 0 {
 			b.buf.Write(textFill(pad, b.nl, b.d.Bit8, seed))
 		}
@@ -440,7 +448,7 @@ func (m *Msg) selfCheck(e *Ent, top bool) error {
 			}
 		}
 		delim := "--" + bnd
-		if n := bytes.Count(m.A[e.Body:e.End], []byte(delim)); n != len(e.Kids)+1 {
+		if n := bytes.Count(m.A[e.Body:e.End], []byte("\n"+delim)) + bytes.Count(m.A[e.Body:e.Body+len(delim)], []byte(delim)); n != len(e.Kids)+1 {
 			return fmt.Errorf("boundary %s occurs %d times for %d children", bnd, n, len(e.Kids))
 		}
 		for _, k := range e.Kids {
